@@ -282,7 +282,12 @@ class LRI(dict):
             self._init_ll()
 
     def copy(self):
-        return self.__class__(max_size=self.max_size, values=self)
+        # read the items off the linked list (oldest first) under the
+        # lock: going through __getitem__ would count hits on, and for
+        # an LRU reorder, the cache being copied
+        with self._lock:
+            values = self._get_flattened_ll()[1:]
+        return self.__class__(max_size=self.max_size, values=values)
 
     def setdefault(self, key, default=None):
         with self._lock:
